@@ -30,11 +30,10 @@ SPEC = {
         "the super-type graph handed to quill's remapper is acyclic (its search recurses without bound on a cycle: C06's hypothesis acyclic_rank; the harness drops classes that would close a cycle)",
         "the remapper does not rename java/lang/String (JVMS 4.7.2 ties string ConstantValues to a field of exactly that type; a jar remapped that way is rejected by the independent parser)",
         "access flags are compared on the bits the JVMS defines (duke's flag structs cannot hold the others)",
+        "the name of a record component is a valid unqualified name (JVMS 4.7.30): remap asks about it as the field of that name and returns an error otherwise (modelled: DRecord; has_ty does not demand it, the interpreter and the specification both answer Err)",
     ],
     "stated_not_proved": [
-        "every_ref_remapped_full / nothing_else_changes_full (coq/C07/Theory.v): the table theorems without the known_row restriction — refuted today by C07_every_ref_remapped_refuted / C07_nothing_else_changes_refuted (record components, module data)",
-        "every_class_full: Th 6 (C07_remap_val_spec / C07_remap_class_spec) without the hypothesis `clean gen_table known_row v` — false today on classes with record components or module data (F18c, F18d: C07_tree_example, last clause; C07_every_ref_remapped_refuted)",
-        "remap_val = the Rust traversal of remap.rs is not a theorem (there is no Rust semantics here): it is the CTree correspondence (whole class trees of corpus and generated classes, input and output of remap_class, compared node by node with remap_val gen_table) plus the translator's fail-closed recognition of every impl body",
-        "the step from the tree returned by remap_class to the bytes in the output jar (duke's writer, C02; zip container) is covered by the spec_remap oracle on the re-opened jar, not by a theorem; F14v (frames not written) and F01p (parameter annotations not in duke's tree) live there",
+        "remap_val = the Rust traversal of remap.rs is not a theorem (there is no Rust semantics here): it is the CTree correspondence (whole class trees of corpus and generated classes, input and output of remap_class, compared node by node with remap_val gen_table, and with spec_remap_val) plus the translator's fail-closed recognition of every impl body",
+        "the step from the tree returned by remap_class to the bytes in the output jar (duke's writer, C02; zip container) is covered by the spec_remap oracle on the re-opened jar, not by a theorem; F01p (parameter annotations not in duke's tree) and the empty Record attribute (duke's tree cannot represent it: C01's F13r; reported under F18c) live there",
     ],
 }
